@@ -25,7 +25,8 @@ META = {
             'overloaded with RETHROW or RETRY_NEXT_HOST) by two reactor threads while the client timeout fires on the timer thread, an '
             'executor worker runs retries and a client thread attaches a second callback pair and blocks in result(); scheduling '
             'points at every virtual lock/event operation and every source line of the completion/timeout/callback methods of '
-            'ResponseFuture; all schedules with <= 1 preemption (thorough: 2 on the result/error pairs).  Oracle: each observer '
+            'ResponseFuture; quick: all non-preemptive schedules of every configuration and all schedules with <= 1 preemption of three key configurations; '
+            'thorough: <= 1 preemption for every configuration of up to 4 threads, <= 2 for those of up to 3 threads.  Oracle: each observer '
             'invoked exactly once, never both kinds, all observers and result() agree, no deadlock, outcome exists.',
     'note': 'History layer: single-threaded histories (handler atomicity).  Schedule layer: line-granular preemption inside the '
             'ResponseFuture methods named in vt/c14sched.py; connection/pool code runs between scheduling points at its lock operations only.  '
@@ -168,6 +169,9 @@ def configs(ctx):
         ('spec0', dict(base, spec=0), 6),
         ('spec1', dict(base, spec=1, kinds=['rows', 'overloaded'], decisions=['RETRY_NEXT_HOST', 'RETHROW', 'IGNORE']), 6),
         ('spec2', dict(base, spec=2, kinds=['rows', 'overloaded'], decisions=['RETRY_NEXT_HOST', 'RETHROW'], faults=False), 6),
+        # speculative delays that do not fit the remaining time (the speculative timer must hand over to the timeout timer)
+        ('spec-tight', dict(base, spec=2, spec_delay=0.5, timeout=1.0, kinds=['rows', 'overloaded'], decisions=['RETRY_NEXT_HOST', 'RETHROW'], faults=False), 5),
+        ('spec-long', dict(base, spec=1, spec_delay=2.0, timeout=1.0, kinds=['rows'], decisions=['RETHROW'], faults=False), 4),
         ('paged', dict(base, spec=1, paged=True, kinds=['rows_more', 'rows', 'invalid'], decisions=['RETHROW'], faults=False), 7),
     ]
     if ctx.thorough:
@@ -179,14 +183,31 @@ def configs(ctx):
 def run(ctx):
     for name, params, depth in configs(ctx):
         explore.bfs(ctx, H, params, max_depth=depth, label='c14-' + name, max_states=400000 if ctx.thorough else 60000)
-    bound = 1
     cfgs = ctx.rotate(c14sched.configs(ctx.thorough))
-    jobs = [(c, bound) for c in cfgs]
+
+    def nthreads(c):
+        return 2 + bool(c['timer']) + bool(c['late']) + bool('overloaded' in c['kinds'] or c.get('spec_in_race'))
     if ctx.thorough:
-        jobs += [(c, 2) for c in cfgs if not c.get('spec_in_race') and 'overloaded' not in c['kinds'] and c['late']]
-    parts = ctx.pmap(_explore_sched, jobs)
+        # one preemption anywhere for every configuration of up to 4 threads (5-thread ones: non-preemptive schedules only,
+        # their bound-1 space is > 10^5 executions each), two preemptions for the 2-3 thread ones
+        jobs = [(c, 1 if nthreads(c) <= 4 else 0) for c in cfgs]
+        jobs += [(c, 2) for c in cfgs if nthreads(c) <= 3 and not c.get('spec_in_race')]
+    else:
+        # every configuration with all non-preemptive schedules (bound 0: every order in which the threads can run
+        # to their next blocking point), three key configurations with one preemption anywhere
+        key = [c for c in cfgs if (c['kinds'], c['timer'], c['decision']) in (
+            (['rows', 'rows'], False, 'RETHROW'), (['rows', 'invalid'], True, 'RETHROW'), (['invalid', 'rows'], True, 'RETHROW'))]
+        jobs = [(c, 0) for c in cfgs if c not in key] + [(c, 1) for c in key]
+    # two phases so that 16 processes share the work evenly: the root execution of every job, then its subtrees
+    roots = ctx.pmap(_explore_root, jobs)
     nexec = 0
-    for (c, b), part in zip(jobs, parts):
+    sub = []
+    for (c, b), (part, kids) in zip(jobs, roots):
+        nexec += part.counters.get('sched_executions', 0)
+        ctx.merge(part)
+        k = max(1, min(len(kids), 16 if b >= 1 else 1))
+        sub += [(c, b, kids[i::k]) for i in range(k) if kids[i::k]]
+    for part in ctx.pmap(_explore_sched, sub):
         nexec += part.counters.get('sched_executions', 0)
         ctx.merge(part)
     ctx.count('states', nexec)
@@ -199,10 +220,18 @@ def run(ctx):
     ctx.assume('virtual server answers are well-formed protocol v4 frames')
 
 
-def _explore_sched(job):
+def _explore_root(job):
     params, bound = job
     part = Part()
-    frontier = [[]]
+    s = c14sched.harness(params, [], part)
+    part.count('sched_executions')
+    part.count('transitions', s.steps)
+    return part, [k for k, _ in sched.children(s.trace, 0, bound)]
+
+
+def _explore_sched(job):
+    params, bound, frontier = job
+    part = Part()
     while frontier:
         nxt = []
         for prefix in frontier:
